@@ -1,6 +1,7 @@
 package eng
 
 import (
+	"go/constant"
 	"fmt"
 	"go/ast"
 	"go/token"
@@ -47,6 +48,7 @@ type Program struct {
 	KnownFams map[string]int
 	errTab    map[string]int64
 	reach     map[*FuncInfo]bool
+	modNames  map[string]bool
 	C20Derived map[string]string
 	localInitMemo map[*types.Var][]ast.Expr
 	visitingInit  map[ast.Expr]bool
@@ -256,4 +258,31 @@ func (pr *Program) ErrConst(name string) *Term {
 	c := int64(-1000 - len(pr.errTab))
 	pr.errTab[name] = c
 	return IntC(c)
+}
+
+
+// moduleNames: values of the package-level constants named ModuleName (plus the SDK module accounts the chain uses).
+func (pr *Program) moduleNameList() []string {
+	if pr.modNames == nil {
+		pr.modNames = map[string]bool{"bank": true, "gov": true, "distribution": true, "fee_collector": true, "mint": true, "bonded_tokens_pool": true, "not_bonded_tokens_pool": true, "transfer": true, "wasm": true}
+		for _, pi := range pr.Pkgs {
+			if pi.P == nil || pi.P.Types == nil {
+				continue
+			}
+			if c, ok := pi.P.Types.Scope().Lookup("ModuleName").(*types.Const); ok && c.Val().Kind() == constant.String {
+				pr.modNames[constant.StringVal(c.Val())] = true
+			}
+		}
+	}
+	var out []string
+	for n := range pr.modNames {
+		out = append(out, n)
+	}
+	sort.Strings(out)
+	return out
+}
+
+func (pr *Program) isModuleName(n string) bool {
+	pr.moduleNameList()
+	return pr.modNames[n]
 }
